@@ -212,7 +212,10 @@ def run(ctx):
             ctx.fail({"layout": d}, "Layout == is not reflexive")
     # ---- ArchSpec: constants participate in ==, equal specs hash equally -------
     consts = [({}, {}), ({"x": 1.0}, {}), ({"x": 2.0}, {}), ({}, {"n": 0}), ({}, {"n": 1}), ({"x": 1.0}, {"n": 0}),
-              ({"x": 0.0}, {"n": 0})]
+              ({"x": 0.0}, {"n": 0}),
+              # several constants per table, in both insertion orders (equal dicts)
+              ({"x": 1.0, "y": 2.0}, {"n": 0, "m": 1}), ({"y": 2.0, "x": 1.0}, {"m": 1, "n": 0}),
+              ({"x": 1.0, "y": 2.0}, {"m": 1, "n": 0}), ({"x": 2.0, "y": 1.0}, {"n": 0, "m": 1})]
     specs = []
     for d, l in sample[:12]:
         for fc, ic in consts:
